@@ -42,6 +42,14 @@ def subspace(a, b):
     return z3.ForAll([_KB], z3.Implies(b[_KB] >= 0, a[_KB] == b[_KB]))
 
 
+_KU = z3.Const("k!u", Name)
+
+
+def union(a, b):
+    """dict union a | b (values of b win); fixed bound-variable name so that equal unions are equal terms"""
+    return z3.Lambda([_KU], z3.If(b[_KU] >= 0, b[_KU], a[_KU]))
+
+
 def extends(big, small):
     """as partial maps: big ⊇ small"""
     return subspace(big, small)
@@ -102,3 +110,52 @@ def lemma_evalon_monotone_all(N, s, t):
                       z3.ForAll([v], z3.Implies(EvalOn(updbdd(N, v), s) >= 0,
                                                 EvalOn(updbdd(N, v), t) == EvalOn(updbdd(N, v), s)),
                                 patterns=[EvalOn(updbdd(N, v), s)]))
+
+
+# ====================================================================== succession-diagram vocabulary
+SpaceSet = z3.ArraySort(SpaceS, B)
+card = z3.Function("card", SpaceS, I)                  # number of fixed variables of a space (len(dict))
+nvars = z3.Function("nvars", Net, I)                   # network.variable_count()
+SKey = z3.Function("SKey", Net, SpaceS, I)             # space_unique_key(space, network)
+IsTrap = z3.Function("IsTrap", Net, SpaceS, B)
+MaxTrapSet = z3.Function("MaxTrapSet", Net, SpaceS, B, SpaceSet)   # maximal trap spaces strictly inside S (root flag: fixing all sources)
+MinTrapSet = z3.Function("MinTrapSet", Net, SpaceS, SpaceSet)      # minimal trap spaces inside S
+ListSpace = TList(TSpace)
+SortedEnum = z3.Function("SortedEnum", Net, SpaceSet, ListSpace.sort())   # the elements of a finite set of spaces in ascending SKey order
+SortByKey = z3.Function("SortByKey", Net, ListSpace.sort(), ListSpace.sort())
+
+AX_CARD = z3.ForAll([_s], card(_s) >= 0, patterns=[card(_s)])
+
+LEMMAS.update({
+    "L10.key_injective": "SKey(N,a) = SKey(N,b), a and b well-formed spaces over vars(N)  ==>  a = b   [Lean: Biobalm/Key.lean key_injective; base-4 digit lemma]",
+    "L10.sorted_enum_unique": "l enumerates the finite set X without repetition  ==>  SortByKey(N,l) = SortedEnum(N,X)   [consequence of key_injective: a strict total order has a unique sorted enumeration]",
+    "L2.perc_trap": "IsTrap(N,M) ==> IsTrap(N,Perc(N,M)) and Perc(N,M) ⊑ M and Perc(N,Perc(N,M)) = Perc(N,M)   [Lean: Biobalm/Percolation.lean]",
+    "L3.full_space_is_fixed_point": "a trap space fixing every variable has no trap space strictly inside it   [trivial]",
+})
+
+# ---------------------------------------------------------------------- Petri nets and the solver (opaque)
+PNS = z3.DeclareSort("PetriNet")
+Encodes = z3.Function("Encodes", PNS, Net, SpaceS, B)     # pn encodes the dynamics of N on the variables free in S (DESIGN.md section 2)
+SrcSet = z3.ArraySort(Name, B)
+IsSource = z3.Function("IsSource", Net, Name, B)          # upd(N, v, x) = x[v]
+AvoidSig = z3.DeclareSort("AvoidSig")                     # abstract value of an avoid list (set of spaces)
+# TrapSol(pn, problem(0=min,1=max,2=fix), reverse, ensure, avoid, sources) : the exact solution set of section 6.3
+TrapSol = z3.Function("TrapSol", PNS, I, B, SpaceS, AvoidSig, SrcSet, SpaceSet)
+IsEnum = z3.Function("IsEnum", ListSpace.sort(), SpaceSet, B)   # list enumerates the set, each element once
+no_avoid = z3.Const("no_avoid", AvoidSig)
+PROBLEM = {"min": 0, "max": 1, "fix": 2}
+
+LEMMAS.update({
+    "L4+L5.max_traps_global": "Encodes(pn,N,{}) , S Perc-closed trap space of N, l enumerates TrapSol(pn,max,fwd,ensure=S,no avoid,src) , src = sources(N) if root else {}  ==>  SortByKey(N,l) = SortedEnum(N, MaxTrapSet(N,S,root))   [siphon/trap-space correspondence L4 (Lean, siphon direction) + key order L10]",
+    "L4+L5.max_traps_restricted": "Encodes(p,N,S), l enumerates TrapSol(p,max,fwd,{},no avoid,src), l' = [s | S for s in l]  ==>  SortByKey(N,l') = SortedEnum(N, MaxTrapSet(N,S,root))   [L4 + restriction lemma L5]",
+    "L2.max_trap_facts": "M in MaxTrapSet(N,S,r), S a Perc-closed trap space  ==>  M well-formed over vars(N), IsTrap(N,M), Perc(N,M) fixes strictly more variables than S, Perc(N,M) is a Perc-closed trap space   [definition + L2]",
+    "L3.no_max_trap_in_fixed_point": "card(S) = nvars(N), S over vars(N)  ==>  MaxTrapSet(N,S,r) is empty   [a space fixing everything has no proper subspace]",
+})
+
+
+_CI = z3.Int("ci!")
+
+
+def map_union(l, S):
+    """the term of `[s | S for s in l]` for a list term l"""
+    return ListSpace.mk(ListSpace.len(l), z3.Lambda([_CI], union(ListSpace.at(l)[_CI], S)))
